@@ -49,7 +49,8 @@ func (f *Cond) Call(s *slip.Scope, args slip.List, depth int) (result slip.Objec
 		if !ok || len(clause) == 0 {
 			slip.TypePanic(s, depth, "clause", a, "list")
 		}
-		if slip.EvalArg(s, clause, 0, d2) == nil {
+		// A clause without forms returns the value of its test.
+		if result = slip.EvalArg(s, clause, 0, d2); result == nil {
 			continue
 		}
 		for i := 1; i < len(clause); i++ {
